@@ -49,6 +49,47 @@ def is_unknown(v):
     return isinstance(v, _Unknown)
 
 
+class IKey(tuple):
+    """Interned normal-form key: an ordinary tuple (equality / hash compatible with plain tuples) whose
+    repr is a short id and whose hash is cached, so that atoms nested in atoms stay cheap."""
+
+    def __repr__(self):
+        return f"#{self._id}"
+
+    def __hash__(self):
+        h = self.__dict__.get("_h")
+        if h is None:
+            h = tuple.__hash__(self)
+            self.__dict__["_h"] = h
+        return h
+
+    def __eq__(self, o):
+        if self is o:
+            return True
+        return tuple.__eq__(self, o)
+
+    def __ne__(self, o):
+        return not self.__eq__(o)
+
+    def full(self):
+        return tuple(self)
+
+
+_INTERN = {}
+
+
+def intern_key(t):
+    if isinstance(t, IKey):
+        return t
+    k = IKey(t)
+    got = _INTERN.get(k)
+    if got is None:
+        k._id = len(_INTERN) + 1
+        _INTERN[k] = k
+        return k
+    return got
+
+
 def _frac(x):
     if isinstance(x, Fraction):
         return x
@@ -103,7 +144,7 @@ class Poly:
     # -- inspection ---------------------------------------------------------------
     def key(self):
         if self._key is None:
-            self._key = tuple(sorted(((m, c) for m, c in self.terms.items()), key=repr))
+            self._key = intern_key(tuple(sorted(((m, c) for m, c in self.terms.items()), key=repr)))
         return self._key
 
     def __hash__(self):
@@ -441,7 +482,7 @@ class NC:
             t[w] = v
 
     def key(self):
-        return tuple(sorted(((w, c.key()) for w, c in self.terms.items()), key=repr))
+        return intern_key(tuple(sorted(((w, c.key()) for w, c in self.terms.items()), key=repr)))
 
     def same(self, o):
         if not isinstance(o, NC):
